@@ -134,6 +134,10 @@ class UMatrixLoop(_MomentBase):
 class Gamma(_MomentBase):
     function = "UtilityParity.gamma"
 
+    def __init__(self, column_output=False):
+        self.column_output = column_output          # the predictor returns an (n,1) array (as TensorFlow models do) instead of an (n,) array
+        self.variant = "[predictor returns a column (n,1)]" if column_output else "[predictor returns a vector (n,)]"
+
     def params(self, eng, st):
         st.assume(n >= 2)
         self.D, self.H = Function("utility_diff", IntSort(), RealSort()), Function("h", IntSort(), RealSort())
@@ -147,6 +151,8 @@ class Gamma(_MomentBase):
     def on_call(self, eng, st, node, name, recv, args, kwargs):
         if name == "$call" and isinstance(recv, Abstract) and recv.tag == "predictor":
             eng.oblige(st, "predictor_is_applied_to_the_loaded_X", BoolVal(bool(args) and args[0] is st.env["self"].fields["X"]), "wiring", node)
+            if self.column_output:
+                return Nd("predictions", (n, 1), "ndarray", "ERASED", cell=lambda i, j: self.H(i))
             return Nd("predictions", (n,), "ndarray", "ERASED", cell=lambda i: self.H(i))
         if name == "dot" and isinstance(recv, Abstract) and recv.tag == "UT" and is_nd(args[0]):
             return Abstract("lin", coef=RealVal(1), U=recv.of, vec=args[0], div=None)
@@ -174,6 +180,8 @@ class Gamma(_MomentBase):
             return [("returns_a_multiple_of_U_transposed_times_pred", BoolVal(False))]
         v = value.vec
         rng = in_range((n,), (GI,))
+        if not (is_nd(v) and len(v.shape) == 1):
+            return [("pred_is_a_vector_with_one_entry_per_row", BoolVal(False))]
         return [("uses_the_constraint_matrix_built_by_load_data", BoolVal(value.U is self.Uobj)),
                 ("scaled_by_minus_one_over_n", value.coef == -1 / z3.ToReal(n)),
                 ("pred_is_utility_diff_times_h_plus_base_utility", Implies(rng, v.cell(GI) == self.D(GI) * self.H(GI) + self.U2(GI, IntVal(0)))
